@@ -76,14 +76,19 @@ func c03Step(v *vRaft, typ pb.MessageType) {
 	n.handleReceivedMessage(r, m)
 }
 
-// c03Shape: quick = 3 voters + learner in every role, self as learner, and the single-voter group as follower
-// and leader; thorough = C01's full shape list.
+// c03Shape: 3 voters + learner in every role, self as learner, and the single-voter group as follower
+// and leader; thorough adds the two-voter group as follower and leader.
 func c03Shape() vShape {
-	if vsym.Thorough() {
-		return c01Shape(3)
-	}
 	s := vShape{Prod: true, SimplePr: true, N: 3, Learner: true}
-	switch k := vsym.Choose("shape", 7); k {
+	nshapes := 7
+	if vsym.Thorough() {
+		nshapes = 9 // + two voters without learner as follower and leader (C01's full shape list ran for more than an hour)
+	}
+	switch k := vsym.Choose("shape", nshapes); k {
+	case 7:
+		s.N, s.Learner, s.Role = 2, false, StateFollower
+	case 8:
+		s.N, s.Learner, s.Role = 2, false, StateLeader
 	case 0, 1, 2, 3:
 		s.Role = []StateType{StateFollower, StatePreCandidate, StateCandidate, StateLeader}[k]
 	case 4:
